@@ -18,7 +18,7 @@ PROP = 'C06'
 LEVEL = 'exploration'
 RULE = ('family circuits x all {0,1,R,F} stimuli x delay plans (zero delay on fork inputs) x capacities x configuration lattice: {c_reuse} x {strip_forks} x {WaveSim, WaveSimCuda under the '
         'repository\'s own mock launcher} x allocated lanes {n, n+1, n+7, 2n} x lane permutations (reversal, rotations, adjacent swap) x c_prop(sims=k) for k in 1..n (quick: 6 values) x '
-        'delay dataset selection (mode 0 with every seed, mode 1 with per-lane datasets) x a_ctrl; state transfer s_ppo_to_ppi (CPU method vs GPU kernel) after a settled or a mid-activity capture, compared through the following cycle; bench-parsed netlists whose output ports are read inside the circuit: two cycles with s_ppo_to_ppi in between, WaveSim vs WaveSimCuda x {plain, c_reuse+strip_forks}; LogicSim: {c_reuse} x {strip_forks} x m in {2,4,8} on all stimuli, also on bench-parsed netlists whose output ports are read inside the circuit; '
+        'delay dataset selection (mode 0 with every seed, mode 1 with per-lane datasets) x a_ctrl; state transfer s_ppo_to_ppi (CPU method vs GPU kernel) after a settled or a mid-activity capture (times 2.0, 1.25, 0.0), compared through the following cycle; bench-parsed netlists whose output ports are read inside the circuit: two cycles with s_ppo_to_ppi in between, WaveSim vs WaveSimCuda x {plain, c_reuse+strip_forks}; LogicSim: {c_reuse} x {strip_forks} x m in {2,4,8} on all stimuli, also on bench-parsed netlists whose output ports are read inside the circuit; '
         'oracle: bit-identical port results (and full signal memory where both runs keep it); distinct_nontrivial = distinct (case, configuration, result) signatures')
 ASSUMPTIONS = ['strip_forks comparisons use zero delay on lines feeding forks and uniform capacities (the statement\'s parenthesis)',
                'delay selection mode 2 (pseudo-random per-op choice) is outside the statement and not compared',
@@ -39,7 +39,7 @@ def run_task(task):
         from checks.c07 import bench_cut_family
         for idx, text in enumerate(F.take_slice(bench_cut_family(), task[2], task[1])):
             if tier == 'quick' and idx % 8 != seed % 8: continue
-            case = {'kind': 'cutwave', 'nl': text, 'caps': (16, 4)[idx % 2], 'T': (None, 2.0, 1.25)[idx % 3]}
+            case = {'kind': 'cutwave', 'nl': text, 'caps': (16, 4)[idx % 2], 'T': (None, 2.0, 1.25, 0.0)[idx % 4]}
             try: cutwave_case(res, case)
             except Exception as ex:
                 res.violation(f'C06/cutwave/{common.h64(case["nl"]):016x}/exception-{type(ex).__name__}', case, traceback.format_exc()[-1500:])
@@ -320,7 +320,7 @@ def wave_case(res, case):
     if spos:
         rs, nxt = [], []
         live = [k for k, p in enumerate(spos) if len(c.s_nodes[p].outs) > 0]
-        Tcap = (None, 2.0, 1.25)[common.h64((case['nl'], 'Tcap')) % 3]    # settled capture, or a capture in the middle of the activity: the captured value differs from the final one
+        Tcap = (None, 2.0, 1.25, 0.0)[common.h64((case['nl'], 'Tcap')) % 4]    # settled capture, or a capture in the middle of the activity: the captured value differs from the final one
         base_t = base
         if Tcap is not None:
             base_t, _ = run(); base_t.c_to_s(time=Tcap)
